@@ -117,6 +117,7 @@ struct C16 : Scenario {
 		if (rng.chance(1, 3)) t.trunc = (int64_t) rng.below(a0.bytes.size() + 1);   // relative to A; shifted by the prefix at run time
 		p.tasks.push_back(t);
 		if (rng.chance(1, 2)) { static const char *cc[] = {"t", "l", "v", "tq1", "lv", "vv", "tq0", "lq"}; p.sets("clicmd", cc[rng.below(8)]); }
+		if (rng.chance(1, 5)) p.seti("lead", 1 + (int64_t) rng.below(2));
 		// prefix
 		int mode = (int) (run % 8);
 		size_t plen = 0;
@@ -269,6 +270,35 @@ struct C16 : Scenario {
 		}
 		if (res.ok && (!same_headers(r1.H, r0.H) || !same_headers(r2.H, r0.H)))
 			res.fail("C16.headers", "headers:modes", "seekable-file reference yields different headers when listing, reading and checking");
+		// a source the caller has partly consumed already (its own wrapper: here a small archive of its own, or text with a
+		// method signature): the library starts where the source stands, whatever kind of source it is
+		if (res.ok && p.geti("lead", 0)) {
+			Bytes lead;
+			if (p.geti("lead") == 1) {
+				Plan lp; Member tm; tm.level = (int) (p.run % 3); tm.method = "-lh0-"; tm.inname = to_bytes("lead"); tm.gname = "lead";
+				if (tm.level == 2) { ExtHdr e; e.type = 1; e.data = to_bytes("lead"); tm.ext.push_back(e); tm.inname.clear(); }
+				tm.data = to_bytes("wrapper"); tm.plain = tm.data;
+				lp.members.push_back(tm);
+				lead = build_archive(lp).bytes;
+				while (!lead.empty() && lead.back() == 0) lead.pop_back();   // without the end-of-archive byte: the stream goes on
+			} else lead = to_bytes("MZ wrapper text -lh5- more wrapper text -lz5- and so on, seventy-odd bytes of it.....");
+			Bytes s2 = lead;
+			append(s2, a.bytes);
+			for (int k = 0; k < 6 && res.ok; ++k) {
+				Task t = base;
+				apply_kind(t, KINDS[k]);
+				t.prepos = (int64_t) lead.size();
+				if (t.trunc >= 0) t.trunc += (int64_t) lead.size();
+				if (t.errat >= 0) t.errat += (int64_t) lead.size();
+				Pass q = traverse(s2, t, k & 1 ? "list" : "read", budget + 8 * lead.size());
+				++evals;
+				if (q.budget) { res.fail("C16.budget", std::string("budget:lead:") + KINDS[k], "traversal of a partly consumed source exceeded the step budget"); break; }
+				if (!same_headers(q.H, r0.H))
+					res.fail("C16.headers", std::string("headers:partly_consumed_source"),
+					         strf("%s: the caller had consumed %zu bytes of the source before handing it over; %zu headers, the archive that follows has %zu", KINDS[k], lead.size(), q.H.size(), r0.H.size()));
+			}
+			count("kind.partly_consumed_source");
+		}
 		// injected stream faults (a skip that fails, a read error): iteration may end early, but every header that is
 		// returned must be the member that stands at that place in the reference sequence - never something else
 		for (int k = 0; k < 6 && res.ok; ++k) {
@@ -502,6 +532,21 @@ struct C13 : Scenario {
 				}
 			}
 			p.sets("variant", "extreme");
+		} else if (var == 2 && rng.chance(1, 4)) {
+			// a 32-bit extended-header size of a level-3 header set to 2^32 - k: offsets computed in 32 bits wrap around
+			for (size_t mi = 0; mi < p.members.size(); ++mi) {
+				if (p.members[mi].level != 3) continue;
+				std::vector<std::string> nf;
+				for (auto &f : a.layout[mi].fields) if (f.first.compare(0, 4, "next") == 0 && f.second.len == 4) nf.push_back(f.first);
+				if (nf.empty()) continue;
+				const Field &fd = a.layout[mi].fields.at(nf[rng.below(nf.size())]);
+				uint32_t v = (uint32_t) (0x100000000ULL - (2 + rng.below(70)));
+				Patch q; q.member = (int) mi; q.off = (uint32_t) fd.off; q.op = '=';
+				for (int b = 0; b < 4; ++b) q.val.push_back((uint8_t) (v >> (8 * b)));
+				p.patches.push_back(q);
+				break;
+			}
+			p.sets("variant", "wrap32");
 		} else if (var == 2) {
 			int n = 1 + (int) rng.below(4);
 			for (int i = 0; i < n; ++i) { Patch q; gen_patch(rng, p, a, q, true); p.patches.push_back(q); }
